@@ -120,6 +120,32 @@ c19_kf_DIAG_RHS = ("DiagLinearOperator", "ConstantDiagLinearOperator", "Identity
                    "KroneckerProductDiagLinearOperator")
 
 
+INV_GROUPS = [
+    # inverse-type entry points (solve, inv_quad, inv_quad_logdet, sqrt_inv_matmul, torch.linalg.solve), both solver routes
+    ("kron-solve-row-multiples",
+     lambda k: k["solve_impl"] == "KroneckerProductLinearOperator._solve" and k["op"] in ("inv_solve", "inv_linalg_solve"),
+     ("solve_impl", "op", "shape_class"),
+     "KroneckerProductLinearOperator._solve reshapes the right-hand side factor by factor without comparing its row count "
+     "with the operator size: a right-hand side with 2N, 3N, N/2 (any count the per-factor reshapes accept) rows is solved "
+     "as if it had N rows (both solver routes; also through unsqueeze / expand results and KroneckerProductTriangular)",
+     "K = KroneckerProductLinearOperator(DenseLinearOperator(A2x2), DenseLinearOperator(B2x2)); K.solve(ones(8, 2)).shape == (8, 2); "
+     "torch.linalg.solve(K.to_dense(), ones(8, 2)) raises"),
+    ("identity-sqrt-inv-matmul-returns-rhs",
+     lambda k: k["base_class"] == "IdentityLinearOperator" and k["op"] == "inv_sqrt_inv_matmul",
+     ("base_class", "op", "shape_class"),
+     "IdentityLinearOperator.sqrt_inv_matmul returns the right-hand side without comparing its row count with the operator size",
+     "IdentityLinearOperator(3).sqrt_inv_matmul(ones(4, 2)).shape == (4, 2); eye(3) @ ones(4, 2) raises"),
+    ("masked-solve-size1-rows",
+     lambda k: k["base_class"] == "MaskedLinearOperator" and k["shape_class"] == "rows_1",
+     ("base_class", "op", "route", "shape_class"),
+     "MaskedLinearOperator._matmul scatters the right-hand side into the unmasked rows by assignment, which broadcasts a "
+     "1-row right-hand side; public matmul is guarded, but solve / sqrt_inv_matmul on the CG / Lanczos routes call _matmul "
+     "directly (LinearOperator.solve has no shape check for a 2-D right-hand side)",
+     "with settings.max_cholesky_size(0): MaskedLinearOperator(DenseLinearOperator(A4x4), mask3of4, mask3of4).solve(ones(1, 2)).shape == (3, 2); "
+     "torch.linalg.solve(dense3x3, ones(1, 2)) raises"),
+]
+
+
 class _Ctx:
     seed = 0
 
@@ -140,13 +166,21 @@ def collect():
 def main(write):
     cells = collect()
     texts = {slug: (what, repro) for slug, pred, what, repro in GROUPS}
-    for slug, pred, proj, what, repro in PAIR_GROUPS:
+    for slug, pred, proj, what, repro in PAIR_GROUPS + INV_GROUPS:
         if what is not None:
             texts[slug] = (what, repro)
     files = {}
     unassigned = []
     for sig, r in sorted(cells.items()):
         key = json.loads(sig)
+        if "route" in key:
+            for slug, pred, proj, what, repro in INV_GROUPS:
+                if pred(key):
+                    files.setdefault(slug, []).append(({a: key[a] for a in proj}, r))
+                    break
+            else:
+                unassigned.append(key)
+            continue
         if "impl" in key:
             for slug, pred, proj, what, repro in PAIR_GROUPS:
                 if pred(key):
@@ -174,7 +208,10 @@ def main(write):
                "add_op", "mul_op", "matmul_op")
     total = 0
     for slug in sorted(files):
-        what, repro = texts[slug]
+        what, repro = texts.get(slug) or (None, None)
+        if what is None:
+            prev = os.path.join(common.VERIF, "known_findings.d", "C19-%s.json" % slug)
+            what = json.load(open(prev))[0]["what_fails"] if os.path.exists(prev) else slug
         ents = sorted(files[slug], key=lambda x: ("impl" in x[0], "derive" in x[1]["case"],
                                                   x[0]["shape_class"] not in pref_kind, x[0]["op"] not in pref_op,
                                                   len(x[0].get("class", "")), json.dumps(x[0], sort_keys=True)))
